@@ -5,3 +5,4 @@ import XzVerif.Props.C02
 #print axioms Props.C02.C02_padding
 #print axioms Props.C02.C02_dict_size_covers
 #print axioms Props.C02.C02_field_limits
+#print axioms Props.C02.C02_block_discipline
